@@ -163,7 +163,7 @@ def run(ctx):
         if not any(r.status == "VIOLATED" for r in o.results):
             o.holds(None, None, f"{n_sub} subscripts in the name-keyed routines, none with a literal name", construct="key provenance scan")
 
-    with ctx.obligation("C14.5", "rescale on a common key - merge - renormalise", floor=4) as o:
+    def _ob_166(o):
         if len(obs) != 1:
             o.undecided("p_obs = observations_from_dict(qks, keys) not found", gf)
             return
@@ -309,6 +309,8 @@ def run(ctx):
             rets = [n for n in astx.walk_fn(gf.node) if isinstance(n, ast.Return)]
             if rets and txt(rets[-1].value) == merged:
                 o.holds(gf, rets[-1], "returns the merged, renormalised distribution")
+    with ctx.obligation("C14.5", "rescale on a common key - merge - renormalise", floor=4) as o:
+        _ob_166(o)
 
     with ctx.obligation("C14.9", "list <-> dict conversions of the per-topology distributions are positional relabelings") as o:
         conform(o, prog.func("JointExcessfromJDD.convert_list_qks_to_dict"), ['''
